@@ -158,7 +158,7 @@ func init() {
 				// other V
 				flip := new(big.Int).Sub(big.NewInt(55), sig.V) // 27<->28
 				c.Add(recReq(key, flip, sig.R, sig.S, digest, cid, "notsigner", "flipped"), "rec.otherV")
-				for _, d := range []int64{2, -2, 3, 29 - 27} {
+				for _, d := range []int64{2, -2, 3, 4, -4, 5, 6, -6, 8, 16, -1 - 2*int64(r.Intn(3))} {
 					c.Add(recReq(key, new(big.Int).Add(v155, big.NewInt(d)), sig.R, sig.S, digest, cid, "notsigner", "off155"), "rec.otherV")
 				}
 				c.Add(recReq(key, new(big.Int).Add(v155, big.NewInt(256*int64(1+r.Intn(5)))), sig.R, sig.S, digest, cid, "notsigner", "mod256"), "rec.mod256")
@@ -187,6 +187,24 @@ func init() {
 				c.Add(map[string]any{"op": "secp.compact", "V": sig.V.String(), "R": sig.R.String(), "S": sig.S.String()}, "compact")
 				c.Add(map[string]any{"op": "secp.compact", "V": v155.String(), "R": sig.R.String(), "S": sig.S.String()}, "compact.bigV")
 				c.Add(map[string]any{"op": "secp.decodecompact", "hex": hx(r.Bytes(Pick(r, []int{0, 1, 64, 65, 65, 65, 66})))}, "decodecompact")
+			}
+			// addresses: random keys plus keys whose public X or Y has a leading zero byte (searched)
+			nAddr := 120
+			if c.Thorough() {
+				nAddr = 3000
+			}
+			for i := 0; i < nAddr; i++ {
+				c.Add(map[string]any{"op": "secp.addr", "key": hx(genKey(r))}, "addr.random")
+			}
+			found := 0
+			for k := int64(1); k < 20000 && found < 12; k++ {
+				kb := big.NewInt(k + int64(r.Intn(1000))*20000).FillBytes(make([]byte, 32))
+				kp := secp256k1.KeyPairFromBytes(kb)
+				pb := kp.PublicKeyBytes()
+				if pb[0] == 0 || pb[32] == 0 {
+					c.Add(map[string]any{"op": "secp.addr", "key": hx(kb)}, "addr.leadingZeroXY")
+					found++
+				}
 			}
 			for i := 0; i < 30; i++ {
 				c.Add(map[string]any{"op": "keccak", "hex": hx(r.Bytes(Pick(r, []int{0, 1, 135, 136, 137, 271, 272, 273, r.Intn(1000)})))}, "keccak")
@@ -245,6 +263,9 @@ func init() {
 				return ok(map[string]any{"V": s.V.String(), "R": s.R.String(), "S": s.S.String()})
 			case "keccak":
 				return hx(keccak(unhx(str(req, "hex"))))
+			case "secp.addr":
+				kp := secp256k1.KeyPairFromBytes(unhx(str(req, "key")))
+				return map[string]any{"addr": hx(kp.Address[:]), "pub": hx(kp.PublicKeyBytes())}
 			}
 			return "bad-op"
 		},
@@ -257,6 +278,14 @@ func init() {
 				}
 				if impl == "panic" {
 					fs = append(fs, Finding{Kind: "violation", Region: str(req, "op") + ".panic", Detail: "panicked"})
+				}
+			case "secp.addr":
+				m := impl.(map[string]any)
+				if m["addr"] != orc["addr"] {
+					fs = append(fs, Finding{Kind: "violation", Region: "secp.addr", Detail: "KeyPair.Address is not keccak256(uncompressed public key)[12:]"})
+				}
+				if m["pub"] != orc["pub"] {
+					fs = append(fs, Finding{Kind: "mismatch", Region: "prim.secp.pub", Detail: "Lean public key derivation differs from btcec"})
 				}
 			case "keccak":
 				if !same(impl, orc["model"]) {
